@@ -658,69 +658,7 @@ func c05WriteField(c *Ctx, r *Report) {
 		r.fail("C05-R4-size-agreement", "writeField", "", "not found")
 		return
 	}
-	var fors []*ast.ForStmt
-	clamp := false
-	maxInit := false
-	invalidOK := false
-	for _, s := range fd.Body.List {
-		switch x := s.(type) {
-		case *ast.ForStmt:
-			fors = append(fors, x)
-		case *ast.IfStmt:
-			if strings.ReplaceAll(exprStr(x.Cond), " ", "") == "max>f.length" && len(x.Body.List) == 1 {
-				if as, ok := x.Body.List[0].(*ast.AssignStmt); ok && strings.ReplaceAll(exprStr(as.Lhs[0])+"="+exprStr(as.Rhs[0]), " ", "") == "max=f.length" {
-					clamp = true
-				}
-			}
-		case *ast.AssignStmt:
-			if len(x.Lhs) == 1 && len(x.Rhs) == 1 {
-				l, rr := exprStr(x.Lhs[0]), strings.ReplaceAll(exprStr(x.Rhs[0]), " ", "")
-				if l == "max" && rr == "byte(value.Len())" {
-					maxInit = true
-				}
-				if l == "invalid" && rr == "f.t.BaseType().Invalid()" {
-					invalidOK = true
-				}
-			}
-		}
-	}
-	loopOK := func(fs *ast.ForStmt, init, cond, callArg string) bool {
-		if fs.Init == nil || fs.Cond == nil || fs.Post == nil {
-			return false
-		}
-		as, ok := fs.Init.(*ast.AssignStmt)
-		if !ok || strings.ReplaceAll(exprStr(as.Lhs[0])+":="+exprStr(as.Rhs[0]), " ", "") != init {
-			return false
-		}
-		if strings.ReplaceAll(exprStr(fs.Cond), " ", "") != cond {
-			return false
-		}
-		if inc, ok := fs.Post.(*ast.IncDecStmt); !ok || inc.Tok != token.INC || exprStr(inc.X) != "i" {
-			return false
-		}
-		n := 0
-		okArg := false
-		ast.Inspect(fs.Body, func(nd ast.Node) bool {
-			if call, ok := nd.(*ast.CallExpr); ok {
-				if f, ok := callee(info, call).(*types.Func); ok && f.Name() == "encodeValue" {
-					n++
-					if strings.ReplaceAll(exprStr(call.Args[0]), " ", "") == callArg {
-						okArg = true
-					}
-				}
-			}
-			return true
-		})
-		return n == 1 && okArg
-	}
-	ok := len(fors) == 2 && clamp && maxInit && invalidOK &&
-		loopOK(fors[0], "i:=byte(0)", "i<max", "elem.Interface()") &&
-		loopOK(fors[1], "i:=max", "i<f.length", "invalid")
-	if ok {
-		r.ok("C05-R4-size-agreement", "writeField/array-loops", c.pos(fd.Pos()), "arrays emit min(len, length) elements then length-min(...) invalid paddings: exactly `length` elements")
-	} else {
-		r.undecided("C05-R4-size-agreement", "writeField/array-loops", c.pos(fd.Pos()), fmt.Sprintf("array emission is not the recognised clamp + two counted loops (loops=%d clamp=%v max=%v invalid=%v)", len(fors), clamp, maxInit, invalidOK))
-	}
+	c05ArrayCount(c, r)
 	// scalar: exactly one encodeValue(value.Interface(), f) under !Array()
 	first, _ := fd.Body.List[0].(*ast.IfStmt)
 	okScalar := first != nil && strings.ReplaceAll(exprStr(first.Cond), " ", "") == "!f.t.Array()" && len(first.Body.List) == 1
